@@ -7,6 +7,7 @@ set_option linter.unusedSimpArgs false
 set_option linter.unnecessarySimpa false
 namespace SqlVerif.DTy
 open SqlVerif.Pratt (W Sym str wordDisplay)
+variable {g : Bool}
 
 def trJ (j k : Nat) : Bool := decide (j % 2 = 1) && decide (1 ≤ k)
 def remJ (j k : Nat) (T : List Tok) : List Tok := run0 (if trJ j k then k - 1 else k) ++ T
@@ -27,9 +28,9 @@ theorem closing_spec (j k : Nat) (T : List Tok) :
     · simp [trJ, remJ, hj, h2, expectClosing, run0_add_two, ShrT]
 
 /-- the full helper on one type -/
-def FS (c : Cfg) (env : Env) (t : DT) : Prop :=
+def FS (c : Cfg) (env : Env) (g : Bool) (t : DT) : Prop :=
   ∀ (k : Nat) (T : List Tok) (f d : Nat), prod c env t = true → Ctx false t k T → size t ≤ f → ndepth t ≤ d →
-    parseHelper c f d (emit c env t k T) = .ok (t, trOf t k, remOf t k T)
+    parseHelper c f d (emit c env g t k T) = .ok (t, trOf t k, remOf t k T)
 
 theorem structEven_closers (t : DT) (h : structEven t = true) : closers t % 2 = 0 := by
   cases t <;> simp [structEven] at h
@@ -61,10 +62,10 @@ theorem ctx_comma (x : DT) (R : List Tok) (hs : structEven x = false) : Ctx fals
   refine ⟨by simp [Comma, followC], by simp [hs], ?_⟩
   intro h; simp [Comma, consumeSym, Tok.isSym] at h
 
-theorem core_angle (c : Cfg) (env : Env) (x : DT) (ih : FS c env x)
+theorem core_angle (c : Cfg) (env : Env) (x : DT) (ih : FS c env g x)
     (sq : Bool) (k : Nat) (T : List Tok) (f d : Nat) (hp : prod c env (.arrayAngle x) = true)
     (hc : Ctx sq (.arrayAngle x) k T) (hf : size (.arrayAngle x) ≤ f + 1) (hd : ndepth (.arrayAngle x) ≤ d + 1) :
-    parseHelper c (f + 1) (d + 1) (emit c env (.arrayAngle x) k T) =
+    parseHelper c (f + 1) (d + 1) (emit c env g (.arrayAngle x) k T) =
       finish c f (.arrayAngle x) (trOf (.arrayAngle x) k) (remOf (.arrayAngle x) k T) := by
   simp only [prod, Bool.and_eq_true, Bool.not_eq_true'] at hp
   obtain ⟨⟨hs, hch⟩, hx⟩ := hp
@@ -86,22 +87,22 @@ theorem trOf_closers0 (t : DT) (k : Nat) (h : closers t = 0) : trOf t k = false 
   simp [trOf, h]
 
 /-- an element inside parentheses, parsed by `parse_data_type`: `( x )` -/
-theorem paren_elem (c : Cfg) (env : Env) (x : DT) (ih : FS c env x) (R : List Tok) (f d : Nat)
+theorem paren_elem (c : Cfg) (env : Env) (x : DT) (ih : FS c env g x) (R : List Tok) (f d : Nat)
     (hx : prod c env x = true) (hf : size x ≤ f) (hd : ndepth x ≤ d) :
-    parseHelper c f d (emit c env x 0 (RParen :: R)) = .ok (x, false, RParen :: R) := by
+    parseHelper c f d (emit c env g x 0 (RParen :: R)) = .ok (x, false, RParen :: R) := by
   have := ih 0 (RParen :: R) f d hx (ctx_rparen x R) hf hd
   simpa [trOf, remOf] using this
 
-theorem core_arrayParen (c : Cfg) (env : Env) (hg : c.gtOp = false) (x : DT) (ih : FS c env x)
+theorem core_arrayParen (c : Cfg) (env : Env) (hg : g = false) (x : DT) (ih : FS c env g x)
     (k : Nat) (T : List Tok) (f d : Nat) (hp : prod c env (.arrayParen x) = true)
     (hf : size (.arrayParen x) ≤ f + 1) (hd : ndepth (.arrayParen x) ≤ d + 1) :
-    parseHelper c (f + 1) (d + 1) (emit c env (.arrayParen x) k T) =
+    parseHelper c (f + 1) (d + 1) (emit c env g (.arrayParen x) k T) =
       finish c f (.arrayParen x) (trOf (.arrayParen x) k) (remOf (.arrayParen x) k T) := by
   simp only [prod, Bool.and_eq_true, Bool.not_eq_true'] at hp
   obtain ⟨⟨hs, hch⟩, hx⟩ := hp
   have hh : headOf c .ARRAY = some .arrParen := by simp [headOf, hs, hch]
   simp only [size, ndepth] at hf hd
-  have h1 := paren_elem c env x ih (run c k ++ T) f d hx (by omega) (by omega)
+  have h1 := paren_elem c env x ih (run g k ++ T) f d hx (by omega) (by omega)
   simp only [emit, kwTok]
   rw [parseHelper]
   simp only [hh, LParen, expectSym, Tok.isSym, beq_self_eq_true, if_true, bind, Except.bind]
@@ -110,16 +111,16 @@ theorem core_arrayParen (c : Cfg) (env : Env) (hg : c.gtOp = false) (x : DT) (ih
   rw [trOf_closers0 _ _ (by simp [closers]), remOf_closers0 _ _ _ (by simp [closers]), run_eq_run0 hg]
   rfl
 
-theorem core_nullable (c : Cfg) (env : Env) (hg : c.gtOp = false) (x : DT) (ih : FS c env x)
+theorem core_nullable (c : Cfg) (env : Env) (hg : g = false) (x : DT) (ih : FS c env g x)
     (k : Nat) (T : List Tok) (f d : Nat) (hp : prod c env (.nullable x) = true)
     (hf : size (.nullable x) ≤ f + 1) (hd : ndepth (.nullable x) ≤ d + 1) :
-    parseHelper c (f + 1) (d + 1) (emit c env (.nullable x) k T) =
+    parseHelper c (f + 1) (d + 1) (emit c env g (.nullable x) k T) =
       finish c f (.nullable x) (trOf (.nullable x) k) (remOf (.nullable x) k T) := by
   simp only [prod, Bool.and_eq_true] at hp
   obtain ⟨hdial, hx⟩ := hp
   have hh : headOf c .NULLABLE = some .nullable := by simp [headOf, hdial]
   simp only [size, ndepth] at hf hd
-  have h1 := paren_elem c env x ih (run c k ++ T) f d hx (by omega) (by omega)
+  have h1 := paren_elem c env x ih (run g k ++ T) f d hx (by omega) (by omega)
   simp only [emit, kwTok]
   rw [parseHelper]
   simp only [hh, LParen, expectSym, Tok.isSym, beq_self_eq_true, if_true, bind, Except.bind]
@@ -128,16 +129,16 @@ theorem core_nullable (c : Cfg) (env : Env) (hg : c.gtOp = false) (x : DT) (ih :
   rw [trOf_closers0 _ _ (by simp [closers]), remOf_closers0 _ _ _ (by simp [closers]), run_eq_run0 hg]
   rfl
 
-theorem core_lowCard (c : Cfg) (env : Env) (hg : c.gtOp = false) (x : DT) (ih : FS c env x)
+theorem core_lowCard (c : Cfg) (env : Env) (hg : g = false) (x : DT) (ih : FS c env g x)
     (k : Nat) (T : List Tok) (f d : Nat) (hp : prod c env (.lowCardinality x) = true)
     (hf : size (.lowCardinality x) ≤ f + 1) (hd : ndepth (.lowCardinality x) ≤ d + 1) :
-    parseHelper c (f + 1) (d + 1) (emit c env (.lowCardinality x) k T) =
+    parseHelper c (f + 1) (d + 1) (emit c env g (.lowCardinality x) k T) =
       finish c f (.lowCardinality x) (trOf (.lowCardinality x) k) (remOf (.lowCardinality x) k T) := by
   simp only [prod, Bool.and_eq_true] at hp
   obtain ⟨hdial, hx⟩ := hp
   have hh : headOf c .LOWCARDINALITY = some .lowCard := by simp [headOf, hdial]
   simp only [size, ndepth] at hf hd
-  have h1 := paren_elem c env x ih (run c k ++ T) f d hx (by omega) (by omega)
+  have h1 := paren_elem c env x ih (run g k ++ T) f d hx (by omega) (by omega)
   simp only [emit, kwTok]
   rw [parseHelper]
   simp only [hh, LParen, expectSym, Tok.isSym, beq_self_eq_true, if_true, bind, Except.bind]
@@ -146,17 +147,17 @@ theorem core_lowCard (c : Cfg) (env : Env) (hg : c.gtOp = false) (x : DT) (ih : 
   rw [trOf_closers0 _ _ (by simp [closers]), remOf_closers0 _ _ _ (by simp [closers]), run_eq_run0 hg]
   rfl
 
-theorem core_map (c : Cfg) (env : Env) (hg : c.gtOp = false) (a b : DT) (iha : FS c env a) (ihb : FS c env b)
+theorem core_map (c : Cfg) (env : Env) (hg : g = false) (a b : DT) (iha : FS c env g a) (ihb : FS c env g b)
     (k : Nat) (T : List Tok) (f d : Nat) (hp : prod c env (.map a b) = true)
     (hf : size (.map a b) ≤ f + 1) (hd : ndepth (.map a b) ≤ d + 1) :
-    parseHelper c (f + 1) (d + 1) (emit c env (.map a b) k T) =
+    parseHelper c (f + 1) (d + 1) (emit c env g (.map a b) k T) =
       finish c f (.map a b) (trOf (.map a b) k) (remOf (.map a b) k T) := by
   simp only [prod, Bool.and_eq_true, Bool.not_eq_true'] at hp
   obtain ⟨⟨⟨hdial, ha⟩, hb⟩, hse⟩ := hp
   have hh : headOf c .MAP = some .map := by simp [headOf, hdial]
   simp only [size, ndepth] at hf hd
-  have h1 := iha 0 (Comma :: emit c env b 0 (RParen :: (run c k ++ T))) f d ha (ctx_comma a _ hse) (by omega) (by omega)
-  have h2 := paren_elem c env b ihb (run c k ++ T) f d hb (by omega) (by omega)
+  have h1 := iha 0 (Comma :: emit c env g b 0 (RParen :: (run g k ++ T))) f d ha (ctx_comma a _ hse) (by omega) (by omega)
+  have h2 := paren_elem c env b ihb (run g k ++ T) f d hb (by omega) (by omega)
   simp only [trOf, remOf, Nat.le_zero_eq, Nat.one_ne_zero, decide_false, Bool.and_false, Bool.false_eq_true, if_false,
     run0_zero, List.nil_append] at h1
   simp only [emit, kwTok]
@@ -168,9 +169,9 @@ theorem core_map (c : Cfg) (env : Env) (hg : c.gtOp = false) (a b : DT) (iha : F
   rw [trOf_closers0 _ _ (by simp [closers]), remOf_closers0 _ _ _ (by simp [closers]), run_eq_run0 hg]
   rfl
 
-theorem core_arrayNone (c : Cfg) (env : Env) (hg : c.gtOp = false)
+theorem core_arrayNone (c : Cfg) (env : Env) (hg : g = false)
     (k : Nat) (T : List Tok) (f d : Nat) (hp : prod c env .arrayNone = true) :
-    parseHelper c (f + 1) (d + 1) (emit c env .arrayNone k T) =
+    parseHelper c (f + 1) (d + 1) (emit c env g .arrayNone k T) =
       finish c f .arrayNone (trOf .arrayNone k) (remOf .arrayNone k T) := by
   simp only [prod] at hp
   have hh : headOf c .ARRAY = some .arrNone := by simp [headOf, hp]
@@ -180,10 +181,10 @@ theorem core_arrayNone (c : Cfg) (env : Env) (hg : c.gtOp = false)
   rw [trOf_closers0 _ _ (by simp [closers]), remOf_closers0 _ _ _ (by simp [closers]), run_eq_run0 hg]
   rfl
 
-theorem core_structNil (c : Cfg) (env : Env) (hg : c.gtOp = false) (b : Bracket) (sq : Bool)
+theorem core_structNil (c : Cfg) (env : Env) (hg : g = false) (b : Bracket) (sq : Bool)
     (k : Nat) (T : List Tok) (f d : Nat) (hp : prod c env (.struct .nil b) = true)
     (hc : Ctx sq (.struct .nil b) k T) :
-    parseHelper c (f + 1) (d + 1) (emit c env (.struct .nil b) k T) =
+    parseHelper c (f + 1) (d + 1) (emit c env g (.struct .nil b) k T) =
       finish c f (.struct .nil b) (trOf (.struct .nil b) k) (remOf (.struct .nil b) k T) := by
   simp only [prod, Bool.and_eq_true, Bool.not_eq_true', beq_iff_eq] at hp
   obtain ⟨⟨hb, hdk⟩, hdial⟩ := hp
@@ -221,17 +222,17 @@ def fieldNameStep (ts : List Tok) : Except Err (Option Ident × List Tok) :=
 
 theorem fieldName_spec (c : Cfg) (env : Env) (n : Option Ident) (t : DT) (k : Nat) (T : List Tok)
     (hn : (match n with | some i => identIsWord c i | none => !twoWordsT c env t) = true)
-    (hp : prod c env t = true) (hX : nonWord (run c k ++ T) = true) :
-    fieldNameStep (nameTok c env n ++ emit c env t k T) = .ok (n, emit c env t k T) := by
+    (hp : prod c env t = true) (hX : nonWord (run g k ++ T) = true) :
+    fieldNameStep (nameTok c env n ++ emit c env g t k T) = .ok (n, emit c env g t k T) := by
   cases n with
   | none =>
-    have : fieldHasName (emit c env t k T) = false := by
-      rw [hasName_emit c env t k T hp hX]; simpa using hn
+    have : fieldHasName (emit c env g t k T) = false := by
+      rw [hasName_emit (g := g) c env t k T hp hX]; simpa using hn
     simp [fieldNameStep, nameTok, this, pure, Except.pure]
   | some i =>
-    obtain ⟨v, q, kw, r, hr⟩ := emit_head_word c env t k T hp
+    obtain ⟨v, q, kw, r, hr⟩ := emit_head_word (g := g) c env t k T hp
     have hw := identTok_isWord c env i hn
-    have : fieldHasName (identTok c env i :: emit c env t k T) = true := by
+    have : fieldHasName (identTok c env i :: emit c env g t k T) = true := by
       simp only [hr, fieldHasName, Bool.and_eq_true]; exact ⟨hw, rfl⟩
     simp [fieldNameStep, nameTok, this, parseIdent_identTok, bind, Except.bind, pure, Except.pure]
 
@@ -263,12 +264,12 @@ theorem noComma_last {sq : Bool} {P : DT} {j k : Nat} {T : List Tok} (hcx : Ctx 
     rw [this]
     rcases hr with hr | hr <;> simp [hr, ShrT, GtT, consumeSym, Tok.isSym]
 
-theorem structLoop_spec (c : Cfg) (env : Env) (hg : c.gtOp = false) (n0 : Nat)
-    (IH : ∀ t, size t ≤ n0 → FS c env t) :
+theorem structLoop_spec (c : Cfg) (env : Env) (hg : g = false) (n0 : Nat)
+    (IH : ∀ t, size t ≤ n0 → FS c env g t) :
     ∀ (fs : Fields) (sq : Bool) (P : DT) (k : Nat) (T : List Tok) (f d : Nat), fs.isNil = false →
       prodOpt c env fs = true → Ctx sq P k T → closers P = lastClosers fs + 1 →
       structEven P = (lastClosers fs % 2 == 1) → sizeF fs ≤ n0 → sizeF fs ≤ f → ndepthF fs ≤ d →
-      structLoop c f d (emitA c env fs k T) =
+      structLoop c f d (emitA c env g fs k T) =
         .ok (fs, trJ (lastClosers fs + 1) k, remJ (lastClosers fs + 1) k T)
   | .nil, _, _, _, _, _, _, hn, _, _, _, _, _, _, _ => by simp [Fields.isNil] at hn
   | .cons n t .nil, sq, P, k, T, f, d, _, hp, hcx, hcl, hse, hn0, hf, hd => by
@@ -276,7 +277,7 @@ theorem structLoop_spec (c : Cfg) (env : Env) (hg : c.gtOp = false) (n0 : Nat)
     obtain ⟨⟨⟨hname, hpt⟩, _⟩, _⟩ := hp
     simp only [sizeF, ndepthF, lastClosers] at hn0 hf hd hcl hse ⊢
     obtain ⟨f', rfl⟩ : ∃ f', f = f' + 1 := ⟨f - 1, by omega⟩
-    have hX : nonWord (run c (k + 1) ++ T) = true := by
+    have hX : nonWord (run g (k + 1) ++ T) = true := by
       rw [run_eq_run0 hg]; exact nonWord_run0 _ _ (by omega)
     have h0 := fieldName_spec c env n t (k + 1) T hname hpt hX
     have h1 := IH t (by omega) (k + 1) T f' d hpt (ctx_inner (by omega) hcx) (by omega) (by omega)
@@ -291,10 +292,10 @@ theorem structLoop_spec (c : Cfg) (env : Env) (hg : c.gtOp = false) (n0 : Nat)
     obtain ⟨⟨⟨hname, hpt⟩, hset⟩, hrest⟩ := hp
     simp only [sizeF, ndepthF, lastClosers] at hn0 hf hd hcl hse ⊢
     obtain ⟨f', rfl⟩ : ∃ f', f = f' + 1 := ⟨f - 1, by omega⟩
-    have hX : nonWord (run c 0 ++ (Comma :: emitA c env (.cons n2 t2 r) k T)) = true := by
+    have hX : nonWord (run g 0 ++ (Comma :: emitA c env g (.cons n2 t2 r) k T)) = true := by
       simp [run_zero, nonWord, Comma, Tok.isWord]
     have h0 := fieldName_spec c env n t 0 _ hname hpt hX
-    have h1 := IH t (by omega) 0 (Comma :: emitA c env (.cons n2 t2 r) k T) f' d hpt (ctx_comma t _ hset) (by omega) (by omega)
+    have h1 := IH t (by omega) 0 (Comma :: emitA c env g (.cons n2 t2 r) k T) f' d hpt (ctx_comma t _ hset) (by omega) (by omega)
     have h2 := structLoop_spec c env hg n0 IH (.cons n2 t2 r) sq P k T f' d (by simp [Fields.isNil])
       hrest hcx (by simpa [lastClosers] using hcl) (by simpa [lastClosers] using hse)
       (by simp only [sizeF]; omega) (by simp only [sizeF]; omega) (by simp only [ndepthF]; omega)
@@ -308,17 +309,17 @@ theorem structLoop_spec (c : Cfg) (env : Env) (hg : c.gtOp = false) (n0 : Nat)
     simp only [h2]
 
 
-theorem tupleLoop_spec (c : Cfg) (env : Env) (n0 : Nat) (IH : ∀ t, size t ≤ n0 → FS c env t) :
+theorem tupleLoop_spec (c : Cfg) (env : Env) (n0 : Nat) (IH : ∀ t, size t ≤ n0 → FS c env g t) :
     ∀ (fs : Fields) (R : List Tok) (f d : Nat), fs.isNil = false → prodOpt c env fs = true →
       sizeF fs ≤ n0 → sizeF fs ≤ f → ndepthF fs ≤ d →
-      tupleLoop c f d (emitP c env fs (RParen :: R)) = .ok (fs, RParen :: R)
+      tupleLoop c f d (emitP c env g fs (RParen :: R)) = .ok (fs, RParen :: R)
   | .nil, _, _, _, hn, _, _, _, _ => by simp [Fields.isNil] at hn
   | .cons n t .nil, R, f, d, _, hp, hn0, hf, hd => by
     simp only [prodOpt, Bool.and_eq_true] at hp
     obtain ⟨⟨⟨hname, hpt⟩, _⟩, _⟩ := hp
     simp only [sizeF, ndepthF] at hn0 hf hd
     obtain ⟨f', rfl⟩ : ∃ f', f = f' + 1 := ⟨f - 1, by omega⟩
-    have hX : nonWord (run c 0 ++ (RParen :: R)) = true := by simp [run_zero, nonWord, RParen, Tok.isWord]
+    have hX : nonWord (run g 0 ++ (RParen :: R)) = true := by simp [run_zero, nonWord, RParen, Tok.isWord]
     have h0 := fieldName_spec c env n t 0 _ hname hpt hX
     have h1 := paren_elem c env t (IH t (by omega)) R f' d hpt (by omega) (by omega)
     simp only [fieldNameStep, bind, Except.bind, pure, Except.pure] at h0
@@ -332,10 +333,10 @@ theorem tupleLoop_spec (c : Cfg) (env : Env) (n0 : Nat) (IH : ∀ t, size t ≤ 
     obtain ⟨⟨⟨hname, hpt⟩, hset⟩, hrest⟩ := hp
     simp only [sizeF, ndepthF] at hn0 hf hd
     obtain ⟨f', rfl⟩ : ∃ f', f = f' + 1 := ⟨f - 1, by omega⟩
-    have hX : nonWord (run c 0 ++ (Comma :: emitP c env (.cons n2 t2 r) (RParen :: R))) = true := by
+    have hX : nonWord (run g 0 ++ (Comma :: emitP c env g (.cons n2 t2 r) (RParen :: R))) = true := by
       simp [run_zero, nonWord, Comma, Tok.isWord]
     have h0 := fieldName_spec c env n t 0 _ hname hpt hX
-    have h1 := IH t (by omega) 0 (Comma :: emitP c env (.cons n2 t2 r) (RParen :: R)) f' d hpt (ctx_comma t _ hset) (by omega) (by omega)
+    have h1 := IH t (by omega) 0 (Comma :: emitP c env g (.cons n2 t2 r) (RParen :: R)) f' d hpt (ctx_comma t _ hset) (by omega) (by omega)
     have h2 := tupleLoop_spec c env n0 IH (.cons n2 t2 r) R f' d (by simp [Fields.isNil]) hrest
       (by simp only [sizeF]; omega) (by simp only [sizeF]; omega) (by simp only [ndepthF]; omega)
     simp only [fieldNameStep, bind, Except.bind, pure, Except.pure] at h0
@@ -367,10 +368,10 @@ theorem commaEnd_next (c : Cfg) (env : Env) (i : Ident) (rest : List Tok) (h : n
         · simp only [h1, if_false]; rw [if_neg h2]; simp [DKw.rca]
   · simp [htc]
 
-theorem namedLoop_spec (c : Cfg) (env : Env) (n0 : Nat) (IH : ∀ t, size t ≤ n0 → FS c env t) :
+theorem namedLoop_spec (c : Cfg) (env : Env) (n0 : Nat) (IH : ∀ t, size t ≤ n0 → FS c env g t) :
     ∀ (fs : Fields) (first : Bool) (R : List Tok) (f d : Nat), fs.isNil = false → prodNamed c env first fs = true →
       sizeF fs ≤ n0 → sizeF fs ≤ f → ndepthF fs ≤ d →
-      namedLoop c f d (emitP c env fs (RParen :: R)) = .ok (fs, RParen :: R)
+      namedLoop c f d (emitP c env g fs (RParen :: R)) = .ok (fs, RParen :: R)
   | .nil, _, _, _, _, hn, _, _, _, _ => by simp [Fields.isNil] at hn
   | .cons n t .nil, first, R, f, d, _, hp, hn0, hf, hd => by
     simp only [prodNamed, Bool.and_eq_true] at hp
@@ -401,15 +402,15 @@ theorem namedLoop_spec (c : Cfg) (env : Env) (n0 : Nat) (IH : ∀ t, size t ≤ 
         have hrca : nameRca c env i2 = false := by simpa using hrest'.1.1.1
         simp only [sizeF, ndepthF] at hn0 hf hd
         obtain ⟨f', rfl⟩ : ∃ f', f = f' + 1 := ⟨f - 1, by omega⟩
-        have h1 := IH t (by omega) 0 (Comma :: emitP c env (.cons (some i2) t2 r) (RParen :: R)) f' d hpt (ctx_comma t _ hset) (by omega) (by omega)
+        have h1 := IH t (by omega) 0 (Comma :: emitP c env g (.cons (some i2) t2 r) (RParen :: R)) f' d hpt (ctx_comma t _ hset) (by omega) (by omega)
         have h2 := namedLoop_spec c env n0 IH (.cons (some i2) t2 r) false R f' d (by simp [Fields.isNil]) hrest
           (by simp only [sizeF]; omega) (by simp only [sizeF]; omega) (by simp only [ndepthF]; omega)
         simp only [trOf, remOf, Nat.le_zero_eq, Nat.one_ne_zero, decide_false, Bool.and_false, Bool.false_eq_true,
           if_false, run0_zero, List.nil_append] at h1
-        have h3 : ∃ rest, emitP c env (.cons (some i2) t2 r) (RParen :: R) = identTok c env i2 :: rest := by
+        have h3 : ∃ rest, emitP c env g (.cons (some i2) t2 r) (RParen :: R) = identTok c env i2 :: rest := by
           cases r with
-          | nil => exact ⟨emit c env t2 0 (RParen :: R), by simp [emitP, nameTok]⟩
-          | cons a b r' => exact ⟨emit c env t2 0 (Comma :: emitP c env (.cons a b r') (RParen :: R)), by simp [emitP, nameTok]⟩
+          | nil => exact ⟨emit c env g t2 0 (RParen :: R), by simp [emitP, nameTok]⟩
+          | cons a b r' => exact ⟨emit c env g t2 0 (Comma :: emitP c env g (.cons a b r') (RParen :: R)), by simp [emitP, nameTok]⟩
         obtain ⟨rest, hrest2⟩ := h3
         simp only [emitP, nameTok, List.cons_append, List.nil_append] at h1 h2 hrest2 ⊢
         rw [namedLoop]
@@ -422,10 +423,10 @@ theorem namedLoop_spec (c : Cfg) (env : Env) (n0 : Nat) (IH : ∀ t, size t ≤ 
 theorem startsColOpt_rparen (R : List Tok) : startsColOpt (RParen :: R) = false := rfl
 theorem startsColOpt_comma (R : List Tok) : startsColOpt (Comma :: R) = false := rfl
 
-theorem nestedLoop_spec (c : Cfg) (env : Env) (n0 : Nat) (IH : ∀ t, size t ≤ n0 → FS c env t) :
+theorem nestedLoop_spec (c : Cfg) (env : Env) (n0 : Nat) (IH : ∀ t, size t ≤ n0 → FS c env g t) :
     ∀ (fs : Fields) (first : Bool) (R : List Tok) (f d : Nat), fs.isNil = false → prodNamed c env first fs = true →
       sizeF fs ≤ n0 → sizeF fs ≤ f → ndepthF fs ≤ d →
-      nestedLoop c f d (emitP c env fs (RParen :: R)) = .ok (fs, RParen :: R)
+      nestedLoop c f d (emitP c env g fs (RParen :: R)) = .ok (fs, RParen :: R)
   | .nil, _, _, _, _, hn, _, _, _, _ => by simp [Fields.isNil] at hn
   | .cons n t .nil, first, R, f, d, _, hp, hn0, hf, hd => by
     simp only [prodNamed, Bool.and_eq_true] at hp
@@ -456,15 +457,15 @@ theorem nestedLoop_spec (c : Cfg) (env : Env) (n0 : Nat) (IH : ∀ t, size t ≤
         have hrca : nameRca c env i2 = false := by simpa using hrest'.1.1.1
         simp only [sizeF, ndepthF] at hn0 hf hd
         obtain ⟨f', rfl⟩ : ∃ f', f = f' + 1 := ⟨f - 1, by omega⟩
-        have h1 := IH t (by omega) 0 (Comma :: emitP c env (.cons (some i2) t2 r) (RParen :: R)) f' d hpt (ctx_comma t _ hset) (by omega) (by omega)
+        have h1 := IH t (by omega) 0 (Comma :: emitP c env g (.cons (some i2) t2 r) (RParen :: R)) f' d hpt (ctx_comma t _ hset) (by omega) (by omega)
         have h2 := nestedLoop_spec c env n0 IH (.cons (some i2) t2 r) false R f' d (by simp [Fields.isNil]) hrest
           (by simp only [sizeF]; omega) (by simp only [sizeF]; omega) (by simp only [ndepthF]; omega)
         simp only [trOf, remOf, Nat.le_zero_eq, Nat.one_ne_zero, decide_false, Bool.and_false, Bool.false_eq_true,
           if_false, run0_zero, List.nil_append] at h1
-        have h3 : ∃ rest, emitP c env (.cons (some i2) t2 r) (RParen :: R) = identTok c env i2 :: rest := by
+        have h3 : ∃ rest, emitP c env g (.cons (some i2) t2 r) (RParen :: R) = identTok c env i2 :: rest := by
           cases r with
-          | nil => exact ⟨emit c env t2 0 (RParen :: R), by simp [emitP, nameTok]⟩
-          | cons a b r' => exact ⟨emit c env t2 0 (Comma :: emitP c env (.cons a b r') (RParen :: R)), by simp [emitP, nameTok]⟩
+          | nil => exact ⟨emit c env g t2 0 (RParen :: R), by simp [emitP, nameTok]⟩
+          | cons a b r' => exact ⟨emit c env g t2 0 (Comma :: emitP c env g (.cons a b r') (RParen :: R)), by simp [emitP, nameTok]⟩
         obtain ⟨rest, hrest2⟩ := h3
         simp only [emitP, nameTok, List.cons_append, List.nil_append] at h1 h2 hrest2 ⊢
         rw [nestedLoop]
@@ -479,12 +480,12 @@ theorem nestedLoop_spec (c : Cfg) (env : Env) (n0 : Nat) (IH : ∀ t, size t ≤
 theorem Fields.isNil_false_iff (fs : Fields) : fs.isNil = false ↔ ∃ n t r, fs = .cons n t r := by
   cases fs <;> simp [Fields.isNil]
 
-theorem core_structAngle (c : Cfg) (env : Env) (hg : c.gtOp = false) (n0 : Nat)
-    (IH : ∀ t, size t ≤ n0 → FS c env t) (n : Option Ident) (t : DT) (r : Fields)
+theorem core_structAngle (c : Cfg) (env : Env) (hg : g = false) (n0 : Nat)
+    (IH : ∀ t, size t ≤ n0 → FS c env g t) (n : Option Ident) (t : DT) (r : Fields)
     (sq : Bool) (k : Nat) (T : List Tok) (f d : Nat) (hp : prod c env (.struct (.cons n t r) .angle) = true)
     (hc : Ctx sq (.struct (.cons n t r) .angle) k T) (hn0 : size (.struct (.cons n t r) .angle) ≤ n0 + 1)
     (hf : size (.struct (.cons n t r) .angle) ≤ f + 1) (hd : ndepth (.struct (.cons n t r) .angle) ≤ d + 1) :
-    parseHelper c (f + 1) (d + 1) (emit c env (.struct (.cons n t r) .angle) k T) =
+    parseHelper c (f + 1) (d + 1) (emit c env g (.struct (.cons n t r) .angle) k T) =
       finish c f (.struct (.cons n t r) .angle) (trOf (.struct (.cons n t r) .angle) k)
         (remOf (.struct (.cons n t r) .angle) k T) := by
   simp only [prod, Bool.and_eq_true, Bool.not_eq_true'] at hp
@@ -499,17 +500,17 @@ theorem core_structAngle (c : Cfg) (env : Env) (hg : c.gtOp = false) (n0 : Nat)
   simp only [h1, finish, trOf_eq, remOf_eq, closers]
   rfl
 
-theorem core_tuple (c : Cfg) (env : Env) (hg : c.gtOp = false) (n0 : Nat)
-    (IH : ∀ t, size t ≤ n0 → FS c env t) (fs : Fields)
+theorem core_tuple (c : Cfg) (env : Env) (hg : g = false) (n0 : Nat)
+    (IH : ∀ t, size t ≤ n0 → FS c env g t) (fs : Fields)
     (k : Nat) (T : List Tok) (f d : Nat) (hp : prod c env (.tuple fs) = true)
     (hn0 : size (.tuple fs) ≤ n0 + 1) (hf : size (.tuple fs) ≤ f + 1) (hd : ndepth (.tuple fs) ≤ d + 1) :
-    parseHelper c (f + 1) (d + 1) (emit c env (.tuple fs) k T) =
+    parseHelper c (f + 1) (d + 1) (emit c env g (.tuple fs) k T) =
       finish c f (.tuple fs) (trOf (.tuple fs) k) (remOf (.tuple fs) k T) := by
   simp only [prod, Bool.and_eq_true, Bool.not_eq_true'] at hp
   obtain ⟨⟨hdial, hne⟩, hfs⟩ := hp
   have hh : headOf c .TUPLE = some .tuple := by simp [headOf, hdial]
   simp only [size, ndepth] at hn0 hf hd
-  have h1 := tupleLoop_spec c env n0 IH fs (run c k ++ T) f d hne hfs (by omega) (by omega) (by omega)
+  have h1 := tupleLoop_spec c env n0 IH fs (run g k ++ T) f d hne hfs (by omega) (by omega) (by omega)
   simp only [emit, kwTok]
   rw [parseHelper]
   simp only [hh, LParen, expectSym, Tok.isSym, beq_self_eq_true, if_true, bind, Except.bind]
@@ -518,17 +519,17 @@ theorem core_tuple (c : Cfg) (env : Env) (hg : c.gtOp = false) (n0 : Nat)
   rw [trOf_closers0 _ _ (by simp [closers]), remOf_closers0 _ _ _ (by simp [closers]), run_eq_run0 hg]
   rfl
 
-theorem core_union (c : Cfg) (env : Env) (hg : c.gtOp = false) (n0 : Nat)
-    (IH : ∀ t, size t ≤ n0 → FS c env t) (fs : Fields)
+theorem core_union (c : Cfg) (env : Env) (hg : g = false) (n0 : Nat)
+    (IH : ∀ t, size t ≤ n0 → FS c env g t) (fs : Fields)
     (k : Nat) (T : List Tok) (f d : Nat) (hp : prod c env (.union fs) = true)
     (hn0 : size (.union fs) ≤ n0 + 1) (hf : size (.union fs) ≤ f + 1) (hd : ndepth (.union fs) ≤ d + 1) :
-    parseHelper c (f + 1) (d + 1) (emit c env (.union fs) k T) =
+    parseHelper c (f + 1) (d + 1) (emit c env g (.union fs) k T) =
       finish c f (.union fs) (trOf (.union fs) k) (remOf (.union fs) k T) := by
   simp only [prod, Bool.and_eq_true, Bool.not_eq_true'] at hp
   obtain ⟨⟨hdial, hne⟩, hfs⟩ := hp
   have hh : headOf c .UNION = some .union := by simp [headOf, hdial]
   simp only [size, ndepth] at hn0 hf hd
-  have h1 := namedLoop_spec c env n0 IH fs true (run c k ++ T) f d hne hfs (by omega) (by omega) (by omega)
+  have h1 := namedLoop_spec c env n0 IH fs true (run g k ++ T) f d hne hfs (by omega) (by omega) (by omega)
   simp only [emit, kwTok]
   rw [parseHelper]
   simp only [hh, LParen, expectSym, Tok.isSym, beq_self_eq_true, if_true, bind, Except.bind]
@@ -537,17 +538,17 @@ theorem core_union (c : Cfg) (env : Env) (hg : c.gtOp = false) (n0 : Nat)
   rw [trOf_closers0 _ _ (by simp [closers]), remOf_closers0 _ _ _ (by simp [closers]), run_eq_run0 hg]
   rfl
 
-theorem core_nested (c : Cfg) (env : Env) (hg : c.gtOp = false) (n0 : Nat)
-    (IH : ∀ t, size t ≤ n0 → FS c env t) (fs : Fields)
+theorem core_nested (c : Cfg) (env : Env) (hg : g = false) (n0 : Nat)
+    (IH : ∀ t, size t ≤ n0 → FS c env g t) (fs : Fields)
     (k : Nat) (T : List Tok) (f d : Nat) (hp : prod c env (.nested fs) = true)
     (hn0 : size (.nested fs) ≤ n0 + 1) (hf : size (.nested fs) ≤ f + 1) (hd : ndepth (.nested fs) ≤ d + 1) :
-    parseHelper c (f + 1) (d + 1) (emit c env (.nested fs) k T) =
+    parseHelper c (f + 1) (d + 1) (emit c env g (.nested fs) k T) =
       finish c f (.nested fs) (trOf (.nested fs) k) (remOf (.nested fs) k T) := by
   simp only [prod, Bool.and_eq_true, Bool.not_eq_true'] at hp
   obtain ⟨⟨hdial, hne⟩, hfs⟩ := hp
   have hh : headOf c .NESTED = some .nested := by simp [headOf, hdial]
   simp only [size, ndepth] at hn0 hf hd
-  have h1 := nestedLoop_spec c env n0 IH fs true (run c k ++ T) f d hne hfs (by omega) (by omega) (by omega)
+  have h1 := nestedLoop_spec c env n0 IH fs true (run g k ++ T) f d hne hfs (by omega) (by omega) (by omega)
   simp only [emit, kwTok]
   rw [parseHelper]
   simp only [hh, LParen, expectSym, Tok.isSym, beq_self_eq_true, if_true, bind, Except.bind]
@@ -556,19 +557,19 @@ theorem core_nested (c : Cfg) (env : Env) (hg : c.gtOp = false) (n0 : Nat)
   rw [trOf_closers0 _ _ (by simp [closers]), remOf_closers0 _ _ _ (by simp [closers]), run_eq_run0 hg]
   rfl
 
-theorem core_structParen (c : Cfg) (env : Env) (hg : c.gtOp = false) (n0 : Nat)
-    (IH : ∀ t, size t ≤ n0 → FS c env t) (n : Option Ident) (t : DT) (r : Fields)
+theorem core_structParen (c : Cfg) (env : Env) (hg : g = false) (n0 : Nat)
+    (IH : ∀ t, size t ≤ n0 → FS c env g t) (n : Option Ident) (t : DT) (r : Fields)
     (k : Nat) (T : List Tok) (f d : Nat) (hp : prod c env (.struct (.cons n t r) .paren) = true)
     (hn0 : size (.struct (.cons n t r) .paren) ≤ n0 + 1)
     (hf : size (.struct (.cons n t r) .paren) ≤ f + 1) (hd : ndepth (.struct (.cons n t r) .paren) ≤ d + 1) :
-    parseHelper c (f + 1) (d + 1) (emit c env (.struct (.cons n t r) .paren) k T) =
+    parseHelper c (f + 1) (d + 1) (emit c env g (.struct (.cons n t r) .paren) k T) =
       finish c f (.struct (.cons n t r) .paren) (trOf (.struct (.cons n t r) .paren) k)
         (remOf (.struct (.cons n t r) .paren) k T) := by
   simp only [prod, Bool.and_eq_true] at hp
   obtain ⟨hdk, hfs⟩ := hp
   have hh : headOf c .STRUCT = some .structDuck := by simp [headOf, hdk]
   simp only [size, ndepth] at hn0 hf hd
-  have h1 := namedLoop_spec c env n0 IH (.cons n t r) true (run c k ++ T) f d (by simp [Fields.isNil]) hfs
+  have h1 := namedLoop_spec c env n0 IH (.cons n t r) true (run g k ++ T) f d (by simp [Fields.isNil]) hfs
     (by omega) (by omega) (by omega)
   simp only [emit, kwTok]
   rw [parseHelper]
@@ -580,22 +581,22 @@ theorem core_structParen (c : Cfg) (env : Env) (hg : c.gtOp = false) (n0 : Nat)
 
 
 -- ------------------------------------------------------------------ cores + suffixes, all types
-def emitS (c : Cfg) (env : Env) (t : DT) (ss : List (Option Nat)) (k : Nat) (T : List Tok) : List Tok :=
+def emitS (c : Cfg) (env : Env) (g : Bool) (t : DT) (ss : List (Option Nat)) (k : Nat) (T : List Tok) : List Tok :=
   match ss with
-  | [] => emit c env t k T
-  | _ :: _ => emit c env t 0 (sfxToks c ss ++ (run c k ++ T))
+  | [] => emit c env g t k T
+  | _ :: _ => emit c env g t 0 (sfxToks c ss ++ (run g k ++ T))
 
 def sqOK (c : Cfg) (t : DT) (ss : List (Option Nat)) : Prop :=
   ss ≠ [] → c.lbWord = false ∧ ss.all (szOK c) = true ∧ (closers t = 0 ∨ closers t % 2 = 1)
 
 /-- the helper on a type followed by further `[]` suffixes -/
-def PS (c : Cfg) (env : Env) (t : DT) : Prop :=
+def PS (c : Cfg) (env : Env) (g : Bool) (t : DT) : Prop :=
   ∀ (ss : List (Option Nat)) (k : Nat) (T : List Tok) (f d : Nat), prod c env t = true → sqOK c t ss →
     Ctx false (applySq t ss) k T → size t + ss.length ≤ f → ndepth t ≤ d →
-    parseHelper c f d (emitS c env t ss k T) =
+    parseHelper c f d (emitS c env g t ss k T) =
       .ok (applySq t ss, trOf (applySq t ss) k, remOf (applySq t ss) k T)
 
-theorem FS_of_PS {c : Cfg} {env : Env} {t : DT} (h : PS c env t) : FS c env t := by
+theorem FS_of_PS {c : Cfg} {env : Env} {t : DT} (h : PS c env g t) : FS c env g t := by
   intro k T f d hp hc hf hd
   exact h [] k T f d hp (fun hne => absurd rfl hne) hc (by simpa using hf) hd
 
@@ -627,11 +628,11 @@ theorem sfxToks_head (c : Cfg) (hlb : c.lbWord = false) (s : Option Nat) (ss : L
     ∃ r, sfxToks c (s :: ss) ++ R = Tok.sym .LBracket :: r := by
   cases s <;> simp [sfxToks, sqToks, hlb]
 
-theorem core_to_PS (c : Cfg) (env : Env) (hg : c.gtOp = false) (t : DT)
+theorem core_to_PS (c : Cfg) (env : Env) (hg : g = false) (t : DT)
     (hcore : ∀ (sq : Bool) (k : Nat) (T : List Tok) (f d : Nat), prod c env t = true → Ctx sq t k T →
       size t ≤ f + 1 → ndepth t ≤ d + 1 →
-      parseHelper c (f + 1) (d + 1) (emit c env t k T) = finish c f t (trOf t k) (remOf t k T)) :
-    PS c env t := by
+      parseHelper c (f + 1) (d + 1) (emit c env g t k T) = finish c f t (trOf t k) (remOf t k T)) :
+    PS c env g t := by
   intro ss k T f d hp hsq hc hf hd
   have hs2 := size_ge_two t
   have hd1 := ndepth_ge_one t
@@ -646,8 +647,8 @@ theorem core_to_PS (c : Cfg) (env : Env) (hg : c.gtOp = false) (t : DT)
   | cons s ss =>
     obtain ⟨hlb, hsz, hcl⟩ := hsq (by simp)
     have hc0 : closers (applySq t (s :: ss)) = 0 := closers_applySq (s :: ss) t (by simp)
-    obtain ⟨r, hr⟩ := sfxToks_head c hlb s ss (run c k ++ T)
-    have hctx : Ctx true t 0 (sfxToks c (s :: ss) ++ (run c k ++ T)) := by
+    obtain ⟨r, hr⟩ := sfxToks_head c hlb s ss (run g k ++ T)
+    have hctx : Ctx true t 0 (sfxToks c (s :: ss) ++ (run g k ++ T)) := by
       intro _
       rw [hr]
       refine ⟨by simp [followC], by simp [Comma], ?_⟩
@@ -655,32 +656,32 @@ theorem core_to_PS (c : Cfg) (env : Env) (hg : c.gtOp = false) (t : DT)
     simp only [emitS]
     rw [hcore true 0 _ f' d' hp hctx (by simp at hf; omega) hd]
     have h0 : trOf t 0 = false := by simp [trOf]
-    have h1 : remOf t 0 (sfxToks c (s :: ss) ++ (run c k ++ T)) = sfxToks c (s :: ss) ++ (run c k ++ T) := by
+    have h1 : remOf t 0 (sfxToks c (s :: ss) ++ (run g k ++ T)) = sfxToks c (s :: ss) ++ (run g k ++ T) := by
       simp [remOf, trOf]
-    have hnl : consumeSym .LBracket (run c k ++ T) = none := by
+    have hnl : consumeSym .LBracket (run g k ++ T) = none := by
       have := noLB_rem hc
       rwa [remOf_closers0 _ _ _ hc0, ← run_eq_run0 hg] at this
-    rw [h0, h1, finish, suffix_spec c hlb (s :: ss) f' t (run c k ++ T) hsz hnl (by simp at hf ⊢; omega)]
+    rw [h0, h1, finish, suffix_spec c hlb (s :: ss) f' t (run g k ++ T) hsz hnl (by simp at hf ⊢; omega)]
     simp only [trOf_closers0 _ _ hc0, remOf_closers0 _ _ _ hc0, run_eq_run0 hg]
 
 theorem followC_run {sq : Bool} {t : DT} {k : Nat} {T : List Tok} (hc : Ctx sq t k T) (h0 : closers t = 0)
-    {c : Cfg} (hg : c.gtOp = false) : followC (run c k ++ T).head? = true := by
+    {g : Bool} (hg : g = false) : followC (run g k ++ T).head? = true := by
   have := followC_rem hc
   rwa [remOf_closers0 _ _ _ h0, ← run_eq_run0 hg] at this
 
-theorem PS_leaf (c : Cfg) (env : Env) (hg : c.gtOp = false) (t : DT) (hl : isLeaf t = true)
-    (hemit : ∀ k T, emit c env t k T = pre c env t ++ (run c k ++ T)) (h0 : closers t = 0) : PS c env t := by
+theorem PS_leaf (c : Cfg) (env : Env) (hg : g = false) (t : DT) (hl : isLeaf t = true)
+    (hemit : ∀ k T, emit c env g t k T = pre c env t ++ (run g k ++ T)) (h0 : closers t = 0) : PS c env g t := by
   apply core_to_PS c env hg t
   intro sq k T f d hp hc _ _
   rw [hemit, core_leaf c env f d t _ hl hp (followC_run hc h0 hg), trOf_closers0 _ _ h0, remOf_closers0 _ _ _ h0,
     run_eq_run0 hg]
 
-theorem all_PS (c : Cfg) (env : Env) (hg : c.gtOp = false) : ∀ (n : Nat) (t : DT), size t ≤ n → PS c env t := by
+theorem all_PS (c : Cfg) (env : Env) (hg : g = false) : ∀ (n : Nat) (t : DT), size t ≤ n → PS c env g t := by
   intro n
   induction n with
   | zero => intro t h; have := size_ge_two t; omega
   | succ n ih =>
-    have IH : ∀ t, size t ≤ n → FS c env t := fun t h => FS_of_PS (ih t h)
+    have IH : ∀ t, size t ≤ n → FS c env g t := fun t h => FS_of_PS (ih t h)
     intro t hsz
     cases t with
     | arraySquare x sz =>
@@ -756,7 +757,7 @@ theorem all_PS (c : Cfg) (env : Env) (hg : c.gtOp = false) : ∀ (n : Nat) (t : 
     | set ls => exact PS_leaf c env hg _ rfl (fun _ _ => rfl) rfl
 
 /-- the helper on the stream of any producible type, any nesting depth -/
-theorem helper_emit (c : Cfg) (env : Env) (hg : c.gtOp = false) (t : DT) : FS c env t :=
+theorem helper_emit (c : Cfg) (env : Env) (hg : g = false) (t : DT) : FS c env g t :=
   FS_of_PS (all_PS c env hg (size t) t (Nat.le_refl _))
 
 
